@@ -110,6 +110,21 @@ def check(ctx, comp, cfg, op, rng, name='', positive=False, small=False):
             why = None
         if why:
             ctx.violation(comp, cfg, why, name=name, errors=['%.1e' % e for e in errs])
+        if not util.is_field(op.domain) and not op.is_linear:
+            # history: the same point *object*, changed in place between two derivative calls on the same operator (what
+            # iterative solvers do with their iterate) - against the derivative at a fresh object holding the same values
+            ctx.ev('point-history')
+            try:
+                xs = x.copy()
+                op.derivative(xs)(d)
+                xs.lincomb(0.8, xs)
+                got2 = util.to_cvec(op.range, op.derivative(xs)(d))
+                ref2 = util.to_cvec(op.range, op.derivative(xs.copy())(d))
+                if np.all(np.isfinite(ref2)) and not np.allclose(got2, ref2, rtol=1e-12, atol=1e-12 * max(1.0, float(np.abs(ref2).max()) if ref2.size else 1.0)):
+                    ctx.violation(comp, cfg, 'derivative-at-a-point-object-changed-in-place-is-stale', name=name,
+                                  maxdiff=float(np.abs(got2 - ref2).max()))
+            except (odl.OpNotImplementedError, NotImplementedError):
+                pass
         if op.is_linear:
             ctx.ev('linear-is-own-derivative')
             a = util.to_cvec(op.range, Dd)
@@ -231,6 +246,11 @@ def specials(rng):
         yield 'DiagonalOperator/nonlinear/' + n, lambda sp=sp: odl.DiagonalOperator(P2(), P3())
         yield 'BroadcastOperator/nonlinear/' + n, lambda sp=sp: odl.BroadcastOperator(P2(), odl.IdentityOperator(sp))
         yield 'ReductionOperator/nonlinear/' + n, lambda sp=sp: odl.ReductionOperator(P2(), P3())
+        # the documented short-hand (op, n): all blocks are the SAME operator object, each acting on / at its own component
+        yield 'ReductionOperator/same-nonlinear-object/' + n, lambda sp=sp: odl.ReductionOperator(P3(), 3)
+        yield 'BroadcastOperator/same-nonlinear-object/' + n, lambda sp=sp: odl.BroadcastOperator(P3(), 3)
+        yield 'DiagonalOperator/same-nonlinear-object/' + n, lambda sp=sp: odl.DiagonalOperator(P3(), 3)
+        yield 'ReductionOperator/same-nonlinear-object-listed/' + n, lambda sp=sp: (lambda o: odl.ReductionOperator(o, o))(P2() + v())
         yield 'ProductSpaceOperator/nonlinear/' + n, lambda sp=sp: odl.ProductSpaceOperator([[P2(), odl.IdentityOperator(sp)], [None, P3()]])
         yield 'ProductSpaceOperator/nonlinear-off-diagonal/' + n, lambda sp=sp: odl.ProductSpaceOperator([[P2(), P3()], [P3(), None]])
         yield 'ProductSpaceOperator/nonlinear-off-diagonal-only/' + n, lambda sp=sp: odl.ProductSpaceOperator([[None, P2()], [P3(), None]])
